@@ -429,7 +429,7 @@ func parseSetCookie(raw string) (pkey, pvalue, tail string) {
 	return pkey, pvalue, ck.String()
 }
 
-const nAttr = 7
+const nAttr = 10
 
 func mkCookie(o op) *fiber.Cookie {
 	c := &fiber.Cookie{Name: o.name, Value: o.value}
@@ -446,6 +446,12 @@ func mkCookie(o op) *fiber.Cookie {
 		c.SameSite, c.Partitioned, c.Secure = "None", true, true
 	case 6:
 		c.Expires = time.Date(2031, 2, 3, 4, 5, 6, 0, time.UTC)
+	case 7: // a deletion that still carries a value: Expires in the past
+		c.Expires = time.Date(2001, 2, 3, 4, 5, 6, 0, time.UTC)
+	case 8: // negative MaxAge (delete now), with a value
+		c.MaxAge = -1
+	case 9: // past Expires together with other attributes
+		c.Expires, c.Path, c.HTTPOnly = time.Date(1999, 12, 31, 23, 59, 59, 0, time.UTC), "/x", true
 	}
 	return c
 }
